@@ -9,7 +9,7 @@
    while the zone mutex was held, and end with a "quiesce" line carrying the state.  hbskt->count is the one field
    the zone mutexes do not protect: a wrong total at quiesce is recorded as class "total-count" in seen (reported by
    the rig as the finding it is) instead of ending the validation. *)
-EXTENDS HashBucket, Json, IOUtils, TLC
+EXTENDS HashBucket, Json, IOUtils, TLC, FiniteSets
 VARIABLES hb, l, mismatch, seen
 Tr == ndJsonDeserialize(IOEnv.TRACE)
 
@@ -72,13 +72,22 @@ Classes(S, e) ==
   THEN (IF e.st.total # S.total THEN {"total-count"} ELSE {}) \cup (IF e.st.total < 0 THEN {"total-negative"} ELSE {})
   ELSE {}
 
+(* lock / unlock calls on zone mutexes the real call made (lines of the serialised modes carry lk, ul) *)
+LkDiff(S, e) ==
+  IF ~HasF(e, "lk") \/ e.op = "new" THEN {}
+  ELSE LET rmv == IF e.op \in {"zenum", "enum"} THEN Cardinality(RangeOf(e.rm) \cap RangeOf(e.vis)) ELSE 0
+           nzs == CASE e.op = "zenum" -> 1 [] e.op = "enum" -> Cardinality(EnumZones(S, e.stop)) [] e.op = "destroy" -> S.nz [] OTHER -> 0
+           e1 == IF e.op \in {"rm", "elock", "eunlock"} THEN e.e ELSE 1
+           x == LockOps(S, e.op, IF e.op \in {"get", "add"} THEN e.fl ELSE 0, e.op = "get" /\ e.rc = 0, S.alive /\ S.ez[e1] # NoZone, rmv, nzs)
+       IN D(x[1] = e.lk, "mutex-lock-calls") \cup D(x[2] = e.ul, "mutex-unlock-calls")
+
 Init == hb = Dead /\ l = 1 /\ mismatch = {} /\ seen = {}
 Step ==
   /\ l <= Len(Tr)
   /\ LET e == Tr[l]  r == Apply(hb, e) IN
      /\ r.ok
      /\ hb' = r.S
-     /\ mismatch' = { e.op \o ":" \o f : f \in r.diff \cup StDiff(r.S, e) }
+     /\ mismatch' = { e.op \o ":" \o f : f \in r.diff \cup StDiff(r.S, e) \cup (IF hb.alive THEN LkDiff(hb, e) ELSE {}) }
      /\ seen' = seen \cup { << c, l >> : c \in { v \in Classes(r.S, e) : \A x \in seen : x[1] # v } }
      /\ (l = Len(Tr)) => PrintT(<< "TRACE-ACCEPTED", l, seen' >>)
   /\ l' = l + 1
